@@ -317,6 +317,10 @@ class Interp(Engine):
                 t = self.truth(self.ev(e, fr))
                 acc = t if acc is None else (self.and_(acc, t) if is_and else self.or_(acc, t))
             return acc
+        if getattr(self, "pure_mode", 0):
+            r = self._pure_boolop(n, fr, is_and)
+            if r is not NotImplemented:
+                return r
         v = None
         for e in n.values:
             v = self.ev(e, fr)
@@ -331,10 +335,54 @@ class Interp(Engine):
             return is_and
         return v
 
+    def _pure_guarded(self, thunk, guard):
+        """inside the element of a comprehension over a symbolic sequence (evaluated once for an arbitrary position, no fork possible):
+        evaluate an operand that Python evaluates only where `guard` holds -- what it establishes on the path condition holds under the guard"""
+        if not isinstance(guard, Sym):
+            return thunk()
+        k0 = len(self.pc)
+        self.pc.append(guard.z)
+        try:
+            val = thunk()
+        finally:
+            new = self.pc[k0 + 1 :]
+            del self.pc[k0:]
+            self.pc.extend(z3.Implies(guard.z, h) for h in new)
+        return val
+
+    def _pure_boolop(self, n, fr, is_and):
+        """`a and b and ...` / `a or b or ...` inside the element of a symbolic comprehension: operands of boolean KIND are combined without
+        a fork (each later operand is evaluated under the guard under which Python evaluates it); anything else: NotImplemented (the stock
+        short-circuit evaluation follows, whose branches the path condition must decide)"""
+        acc, guard, k0 = None, True, len(self.pc)
+        for e in n.values:
+            v = self._pure_guarded(lambda e=e: self.ev(e, fr), guard)
+            if not (isinstance(v, bool) or (isinstance(v, Sym) and v.kind == "bool")):
+                del self.pc[k0:]
+                return NotImplemented
+            acc = v if acc is None else (self.and_(acc, v) if is_and else self.or_(acc, v))
+            guard = acc if is_and else (not acc if isinstance(acc, bool) else Sym(z3.Not(acc.z), "bool"))
+            if guard is False:
+                break
+        return acc
+
     def ev_Compare(self, n, fr):
         left = self.ev(n.left, fr)
         acc = True
+        pure = getattr(self, "pure_mode", 0) and not self.spec_mode and len(n.ops) > 1
         for op, rn in zip(n.ops, n.comparators):
+            if pure:
+                # chained comparison inside the element of a symbolic comprehension: `a < b < c` is `a < b and b < c`, c evaluated only
+                # where a < b holds; no fork (the element is evaluated once for an arbitrary position)
+                right = self._pure_guarded(lambda rn=rn: self.ev(rn, fr), acc)
+                r = self.compare(op, left, right)
+                if isinstance(r, (NArr, SArr)):
+                    raise Unsupported("chained comparison on arrays")
+                acc = self.and_(acc, r)
+                if acc is False:
+                    return False
+                left = right
+                continue
             right = self.ev(rn, fr)
             r = self.compare(op, left, right)
             if isinstance(r, (NArr, SArr)):
